@@ -81,6 +81,11 @@ def run_harness(h):
         if SENTINEL[h] not in failed:
             return h, "verified", "", round(time.time() - t0, 1)  # only the constructor's own (expected) panics
     if "VERIFICATION:- FAILED" in out:
+        fails = re.findall(r"Failed Checks: ([^\n]*)", out)
+        tool_limits = ("not currently supported", "unsupported", "unwinding assertion", "is not supported")
+        if fails and all(any(w in f for w in tool_limits) for f in fails):
+            # Kani could not model a construct / unwind a loop in the current source: nothing is known
+            return h, "inconclusive", "tool limit: " + "; ".join(fails)[:300], round(time.time() - t0, 1)
         return h, "failed", out, round(time.time() - t0, 1)
     return h, "error", out[-3000:], round(time.time() - t0, 1)
 
